@@ -187,7 +187,10 @@ def gen_universe(rng, K, with_derived, with_alias):
                 tags.append("latest")
             if v == nxt:
                 tags.append(rng.choice(["next", "beta"]))
-            if tags:
+            if tags or rng.random() < 0.08:
+                # decoys: tags that merely contain the text of a real tag, before or after it
+                if rng.random() < 0.3:
+                    tags += rng.sample(["latest-2", "notlatest", "xlatest", "stable", "nextgen"], rng.choice([1, 1, 2]))
                 rng.shuffle(tags)
                 a.append([K.Tags, ",".join(tags).encode()])
             attrs[(n, v)] = a
